@@ -80,7 +80,7 @@ pub fn judge(root: &Path, c: &Case) -> Result<(bool, bool), (String, String)> {
     plant(&dir, &c.files, c.subdirs, base);
     let before_snap = snapshot(&dir);
     let world = trace_world(&[root]);
-    let op = Op { kind: OpKind::Set, key: key.clone(), val: Val::new(&own_name, 7, 7, 17), pop: Pop::Value, nosy: false };
+    let op = Op { kind: OpKind::Set, key: key.clone(), val: Val::new(&own_name, 7, 7, 17), pop: Pop::Value, nosy: false , link_from: None};
     let (res, ev) = traced(&world, || {
         script_rng(true, 1);
         match c.route {
